@@ -393,3 +393,47 @@ func VP_C17_StateSyncHostileMessage() {
 	vp.Assert(stopped == 1, "C17.reactor.statesync-invalid-message-drops-the-peer")
 	vp.Reach("both-finished")
 }
+
+// C14 (a rejected sender is never used again): k operations on the real snapshot pool from
+// {peer advertises a snapshot, the application rejects the peer as a sender, the peer disconnects},
+// two peers, two snapshots.  Once a peer has been rejected, nothing it advertises is taken, it is never
+// offered as a source, and the syncer's sender check keeps refusing it, reconnects included.
+func vpC14PoolRejectedSender(k int) {
+	pool := newSnapshotPool()
+	peers := []*vpPeer{{id: "p0"}, {id: "p1"}}
+	snaps := []*snapshot{
+		{Height: 5, Format: 1, Chunks: 2, Hash: []byte{0x51}},
+		{Height: 6, Format: 1, Chunks: 2, Hash: []byte{0x61}},
+	}
+	rejected := []bool{false, false}
+	for step := 0; step < k; step++ {
+		pi := vp.Choice("peer", 2)
+		switch vp.Choice("op", 3) {
+		case 0:
+			si := vp.Choice("snapshot", 2)
+			_, err := pool.Add(peers[pi], snaps[si])
+			vp.Assert(err == nil, "C14.pool.advertisement-is-processed")
+		case 1:
+			pool.RejectPeer(peers[pi].ID())
+			rejected[pi] = true
+		case 2:
+			pool.RemovePeer(peers[pi].ID()) // the connection drops; the peer may come back and advertise again
+		}
+		for i := range peers {
+			if !rejected[i] {
+				continue
+			}
+			vp.Reach("rejected?")
+			vp.Assert(pool.IsPeerRejected(peers[i].ID()), "C14.pool.rejected-sender-stays-rejected(reconnects-included)")
+			for _, s := range snaps {
+				for _, src := range pool.GetPeers(s) {
+					vp.Assert(src.ID() != peers[i].ID(), "C14.pool.rejected-sender-is-never-offered-as-a-source")
+				}
+			}
+		}
+	}
+	vp.Reach("done")
+}
+
+func VP_C14_PoolRejectedSender_k3() { vpC14PoolRejectedSender(3) }
+func VP_C14_PoolRejectedSender_k4() { vpC14PoolRejectedSender(4) }
